@@ -78,7 +78,50 @@ func ruleQuorumShape() *Rule {
 			default:
 				ob2.Verdict, ob2.Detail = Undecided, "voters counts "+src
 			}
-			return append(out, ob2)
+			out = append(out, ob2)
+			// 3. the single-voter shortcut must be about the same electorate: where the only voter decides alone (it
+			// commits and confirms leadership without any reply, it leads without asking for votes), "alone" means "the
+			// only VOTER". If it means "the only member", a single voter with non-voting members never takes the shortcut,
+			// and nothing else evaluates its own quorum (that happens in reply handlers of voters): nothing commits while
+			// the non-voters are down, and after a restart it never leads again.
+			if single := p.Func("(*Raft).isSingleServerCluster"); single != nil {
+				sfr := NewRootFrame(single)
+				ob3 := Obligation{Rule: id, Construct: "electorate of the single-voter shortcut in (*Raft).isSingleServerCluster", Pos: p.Pos(single.Pos())}
+				var counted ssa.Value
+				for _, b := range single.Blocks {
+					for _, in := range b.Instrs {
+						bo, ok := in.(*ssa.BinOp)
+						if !ok || bo.Op != token.EQL {
+							continue
+						}
+						if isConstInt(bo.Y, 1) {
+							counted = bo.X
+						} else if isConstInt(bo.X, 1) {
+							counted = bo.Y
+						}
+					}
+				}
+				switch {
+				case counted == nil:
+					ob3.Verdict, ob3.Detail = Undecided, "no comparison of a count with 1 found"
+				default:
+					cs := p.Canon(sfr, stripConv(counted)).S
+					src, guarded, _ := countedCollection(p, sfr, counted)
+					ob3.Facts = append(ob3.Facts, "count: "+cs, "counted collection: "+src)
+					switch {
+					case src == "r.configuration.IsVoter" && guarded:
+						ob3.Verdict, ob3.Detail = Discharged, "the shortcut is taken when exactly one true value is in r.configuration.IsVoter (and it is this node's): the same electorate as hasQuorum"
+					case strings.Contains(cs, "Members") || src == "r.configuration.Members" || (src == "r.configuration.IsVoter" && !guarded) || strings.Contains(cs, "len(r.configuration.IsVoter)"):
+						ob3.Verdict = Violated
+						ob3.Detail = "the shortcut counts members (" + cs + "), hasQuorum counts voters: a single voter with non-voting members never decides alone and nobody else evaluates its quorum, " +
+							"so with the non-voters down nothing commits, and after a restart the only voter never becomes leader (it sends no vote request and counts no reply)"
+					default:
+						ob3.Verdict, ob3.Detail = Undecided, "the count compared with 1 was not recognised"
+					}
+				}
+				out = append(out, ob3)
+			}
+			return out
 		},
 	}
 }
